@@ -126,6 +126,7 @@ fn gen(ctx: &GenCtx, i: u64) -> Option<Run> {
     let key = rb.key(key_for(proto, &mut r));
     let vary = i >= 16 && r.chance(1, 2);
     let reuse = r.chance(1, 2);
+    let with_ids = if i < 16 { i % 2 == 1 } else { r.chance(1, 2) };
     let footer = if r.chance(1, 3) { Some(nonempty_text!(r, 8)) } else { None };
     let assertion = if proto.has_assertion() && r.chance(1, 3) { Some(nonempty_text!(r, 8)) } else { None };
     let mut cur: Option<u32> = None;
@@ -137,6 +138,12 @@ fn gen(ctx: &GenCtx, i: u64) -> Option<Run> {
                 rb.push(Op::NewBuilder { b, proto, layer, now_ns: Ns(now), hash_seed: r.next() });
                 let v = if vary { format!("m{}", r.below(1000)) } else { "same".to_string() };
                 rb.push(Op::BuilderOp { b, op: BOp::SetClaim(ClaimSpec::Custom { key: "data".into(), value: serde_json::json!(v) }) });
+                if with_ids {
+                    // registered identifiers that repeat across builds (a session id, a fixed subject)
+                    rb.push(Op::BuilderOp { b, op: BOp::SetClaim(ClaimSpec::Jti("session-1".into())) });
+                    rb.push(Op::BuilderOp { b, op: BOp::SetClaim(ClaimSpec::Sub("alice".into())) });
+                    rb.push(Op::BuilderOp { b, op: BOp::SetClaim(ClaimSpec::Iss("issuer".into())) });
+                }
                 if let Some(f) = &footer {
                     rb.push(Op::BuilderOp { b, op: BOp::SetFooter(f.clone()) });
                 }
